@@ -37,6 +37,9 @@ var vfBeforeStep func(step int, nodes []*vfCNode)
 // vfExpectError[id]: machine id is expected to refuse the step from which the hook deviates
 var vfExpectError map[int]int
 
+// vfStop2Step/vfStop2Phase: an optional second stop of the twin (several restarts in one ceremony)
+var vfStop2Step, vfStop2Phase = -1, 0
+
 // vfPrefixOnly: the round is only the genuine prefix of another scenario (its own obligations are checked elsewhere)
 var vfPrefixOnly bool
 
@@ -284,6 +287,16 @@ func VF_Air_Ceremony() {
 		defer os.RemoveAll(twin.dir)
 		s := vf.Choose("stop", 2*vfSteps)
 		stopStep, stopPhase = s/2, s%2 // phase 0: result computed, nothing logged; phase 1: logged (and result file written)
+		if vf.Param("stop2") != "" {
+			// a second restart at a later step of the same ceremony
+			s2 := vf.Choose("stop2", 2*vfSteps)
+			if s2/2 <= stopStep {
+				vf.Stop()
+			}
+			vfStop2Step, vfStop2Phase = s2/2, s2%2
+		} else {
+			vfStop2Step = -1
+		}
 		pa, _ := nodes[0].am.pubKey.MarshalBinary()
 		pb, _ := twin.am.pubKey.MarshalBinary()
 		vf.Assert("seeds-from-mnemonic-and-round:longterm-key", vf.BytesEq(pa, pb))
@@ -706,6 +719,9 @@ func vfRoundN(nodes []*vfCNode, round string, t int, twin *vfCNode, stopStep, st
 			twin.commits, twin.deals, twin.responses = nodes[0].commits, nodes[0].deals, nodes[0].responses
 			var tres client.Operation
 			var terr error
+			if step == vfStop2Step && step != stopStep {
+				stopStep, stopPhase = vfStop2Step, vfStop2Phase
+			}
 			if step == stopStep {
 				if stopPhase == 0 {
 					tres, terr = twin.am.GetOperationResult(twinOp) // computed, the process dies before the log write
